@@ -12,6 +12,21 @@ def _env(src):
     env = {}
     for m in re.finditer(r"static\s+constexpr\s+(?:std::)?(?:size_t|u?int\d+_t)\s+(\w+)\s*=\s*([^;]+);", src):
         name, expr = m.group(1), m.group(2)
+        if "time_point::max()" in expr:
+            # last whole millisecond of system_clock::time_point: evaluated for the int64-nanosecond clock of libstdc++/Linux
+            # (the harness prints the value the compiler computed; the plugin compares it with the generated one)
+            mm = re.fullmatch(r"\s*std::chrono::duration_cast<\s*std::chrono::milliseconds\s*>\(\s*std::chrono::system_clock::time_point::max\(\)"
+                              r"\.time_since_epoch\(\)\s*\)\s*\.count\(\)\s*", expr)
+            if not mm:
+                raise TranslateError("constant %s: unsupported time_point expression %r" % (name, expr))
+            env[name] = (2 ** 63 - 1) // 1000000
+            continue
+        mt = re.fullmatch(r"\s*(\w+)\s*<\s*([\d'uUlL]+)\s*\?\s*(\w+)\s*:\s*([\d'uUlL]+)\s*", expr)
+        if mt and mt.group(1) == mt.group(3) and mt.group(2) == mt.group(4):
+            if mt.group(1) not in env:
+                raise TranslateError("constant %s: unknown name %s" % (name, mt.group(1)))
+            env[name] = min(env[mt.group(1)], ceval(mt.group(2), env, name))
+            continue
         if "numeric_limits" in expr:
             mm = re.fullmatch(r"\s*std::numeric_limits<\s*std::int64_t\s*>::min\(\)\s*", expr)
             if not mm:
@@ -124,12 +139,28 @@ def gen(repo):
     ld = _method(src, r"void\s+load\s*\(\s*\)", "load")
     versions = sorted(int(x) for x in re.findall(r"version\s*!=\s*(\d+)", _one(r"\(version\s*!=[^)]*\)", ld, "accepted snapshot versions")))
     count_max = ceval(_one(r"if\s*\(\s*count\s*>\s*([^)]+)\)", ld, "snapshot count bound"), env, "snapshot count bound")
-    klens = set(ceval(x, env, "key length bound") for x in re.findall(r"(?:\|\||\()\s*keyLen\s*>\s*([\w\s*+]+?)\s*[\)|]", ld))
-    if len(klens) != 1:
-        raise TranslateError("load: key length bounds differ between snapshot and log: %r" % klens)
-    vlens = set(ceval(x, env, "value length bound") for x in re.findall(r"(?:\|\||\()\s*valLen\s*>\s*([\w\s*+]+?)\s*[\)|]", ld))
-    if len(vlens) != 1:
-        raise TranslateError("load: value length bounds differ: %r" % vlens)
+    # every comparison in which keyLen / valLen is the left operand, in source order: exactly the two key sites (snapshot, log)
+    # and the three value sites (snapshot, 'S' arm, 'E' arm), each with the operator the model uses
+    def sites(var):
+        out = []
+        for m in re.finditer(r"(?:\(|\|\|)\s*%s\s*(==|!=|>=|<=|>|<)\s*([^|)&;]+?)\s*(?=\)|\|\||&&)" % var, ld):
+            out.append((m.group(1), ceval(m.group(2), env, var + " comparison")))
+        return out
+    ksites = sites("keyLen")
+    if len(ksites) != 4 or ksites[0] != ("==", 0) or ksites[2] != ("==", 0) or ksites[1][0] != ">" or ksites[3] != ksites[1]:
+        raise TranslateError("load: key length sites %r, expected [== 0, > N] at the snapshot site and at the log site" % (ksites,))
+    vsites = sites("valLen")
+    if len(vsites) != 3 or any(o != ">" for o, _ in vsites) or len(set(v for _, v in vsites)) != 1:
+        raise TranslateError("load: value length sites %r, expected three `valLen > N` (snapshot, 'S' arm, 'E' arm)" % (vsites,))
+    klens = {ksites[1][1]}
+    vlens = {vsites[0][1]}
+    # the remaining bounds checks of the arms (shape): value + crc within the buffer, expiry + valLen / crc within the buffer
+    for pat, what in ((r"ptr\s*\+\s*valLen\s*\+\s*4\s*>\s*end", "value+crc bound"), (r"ptr\s*\+\s*8\s*\+\s*4\s*>\s*end", "expiry bound"),
+                      (r"ptr\s*\+\s*keyLen\s*>\s*end", "key bound"), (r"ptr\s*\+\s*4\s*>\s*end", "length field bound")):
+        n = len(re.findall(pat, ld))
+        want = {"value+crc bound": 2, "expiry bound": 2, "key bound": 1, "length field bound": 2}[what]
+        if n != want:
+            raise TranslateError("load: %s occurs %d times, expected %d" % (what, n, want))
     tl = re.search(r"totalLen\s*<\s*([\w\s*+]+?)\s*\|\|\s*totalLen\s*>\s*([\w\s*+]+?)\s*\)", ld)
     if not tl:
         raise TranslateError("load: totalLen bounds not found")
@@ -185,6 +216,14 @@ def gen(repo):
         tl_min, tl_max, klens.pop(), vlens.pop(), vmin)
     t += "/-- `NO_EXPIRY_SENTINEL` (two's complement of INT64_MIN as an integer) and the plausibility ceiling of a persisted expiry -/\n"
     t += "def noExpirySentinel : Int := %d\ndef maxPlausibleEpochMs : Int := %d\n" % (env["NO_EXPIRY_SENTINEL"], env["kMaxPlausibleEpochMs"])
+    t += "/-- last whole millisecond a `system_clock::time_point` holds (int64 nanoseconds: libstdc++ on Linux; cross-checked against the value the harness prints) -/\n"
+    t += "def timePointMaxMs : Int := %d\n" % ((2 ** 63 - 1) // 1000000)
+    # set(key, value, ttl) / setBatch(batch, ttl): the deadline is computed by the saturating helper (true) or by a plain `now() + ttl` (false)
+    sat = len(re.findall(r"const\s+auto\s+expiry\s*=\s*deadlineAfter\(ttl\)\s*;", src)) == 2 and not re.search(r"system_clock::now\(\)\s*\+\s*ttl", src.replace("return ttl > room ? last : now + ttl", ""))
+    t += "/-- the TTL deadline saturates at the last persistable instant instead of overflowing -/\ndef ttlDeadlineSaturates : Bool := %s\n" % str(bool(sat)).lower()
+    uc = _method(src, r"void\s+updateCache\s*\([^)]*\)", "updateCache")
+    t += "/-- `updateCache` returns at once when `maxCacheSize == 0` (instead of erasing `begin()` of an empty map) -/\ndef cacheSizeZeroDisables : Bool := %s\n" % (
+        str(bool(re.search(r"if\s*\(\s*_config\.maxCacheSize\s*==\s*0\s*\)\s*\{\s*return\s*;", uc))).lower())
     t += "/-- shape facts of `load`: cuts a torn log tail before the log is reopened for append; evaluates expiry once, after the replay -/\n"
     t += "def loadTruncatesTornTail : Bool := %s\ndef loadSweepsOnceAtEnd : Bool := %s\n" % (str(truncates_tail).lower(), str(sweeps_once).lower())
     t += "/-- `JsonFileStore::saveToFile`: writes a sibling temp file and renames it over the target (true) / truncates the live file in place (false) -/\n"
